@@ -90,7 +90,7 @@ from pyvc import builtins as bi
 from pyvc.interp import Instance
 
 
-@vc('C13.iterfieldselect', functions=[SEL + 'iterfieldselect'], props=['C13', 'C03', 'C20'],
+@vc('C13.iterfieldselect', functions=[SEL + 'iterfieldselect'], props=['C13', 'C03', 'C20', 'C02'],
     assumptions=['contract of asindices (contracts/lib_base.py), discharged by C12.asindices.range',
                  '`where` is a deterministic callback that may raise',
                  'stateless-body rule (engine meta-theorem): out = header ++ concat over data rows of the per-row delta, '
@@ -133,7 +133,7 @@ def iterfieldselect(h):
         h.explore(body)
 
 
-@vc('C13.iterrowselect', functions=[SEL + 'iterrowselect', 'petl.util.base.Record.__init__'], props=['C13', 'C03', 'C20'],
+@vc('C13.iterrowselect', functions=[SEL + 'iterrowselect', 'petl.util.base.Record.__init__'], props=['C13', 'C03', 'C20', 'C02'],
     assumptions=['`where` is a deterministic callback on the record that may raise', 'stateless-body rule (engine meta-theorem)'])
 def iterrowselect(h):
     def body(ctx):
